@@ -11,13 +11,14 @@
    propagated to the driver and nothing called after an error, lazy initializer called at most
    once and exactly once if anything reached the sink).
    Proved: the full statement for every MODELLED adaptor: map, filter, filter_map, flat_map,
-   flatten, unzip and LazySink ([C14_map], [C14_filter], [C14_filter_map], [C14_flat_map],
-   [C14_flatten], [C14_unzip], [C14_lazy], + [C14_lazy_init_once_partial]: initializer count over
-   ANY downstream sink, kept under its historical name).  UNMODELLED (no claim): inspect,
-   for_each, try_for_each, send_iter, send_stream, demux_map, demux_map_lazy, demux_var,
-   LazySinkSource, LazySource. *)
+   flatten, unzip, LazySink, for_each, try_for_each and send_iter ([C14_map], [C14_filter],
+   [C14_filter_map], [C14_flat_map], [C14_flatten], [C14_unzip], [C14_lazy], [C14_for_each],
+   [C14_try_for_each], [C14_send_iter], + [C14_lazy_init_once_partial]: initializer count over ANY
+   downstream sink, kept under its historical name).  demux_map's routing is covered by
+   property C35's check and not duplicated here.  UNMODELLED (no claim): inspect, send_stream,
+   demux_map_lazy, demux_var, LazySinkSource, LazySource. *)
 From Coq Require Import List NArith Bool.
-From HV Require Import Push.SinkModel Push.PBase Push.PSink Push.PSinkOne Push.PSinkLazy Push.PSinkUnzip Push.PSinkFlat.
+From HV Require Import Push.SinkModel Push.PBase Push.PSink Push.PSinkOne Push.PSinkLazy Push.PSinkUnzip Push.PSinkFlat Push.PSinkMore.
 Import ListNotations.
 
 (* FULL statement for the forwarding adaptors map.rs / filter.rs / filter_map.rs over a scripted
@@ -116,6 +117,39 @@ Theorem C14_lazy : forall A fuel (items : list A) n ok (s0 : sds A),
     end.
 Proof. exact (@lazy_correct). Qed.
 Print Assumptions C14_lazy.
+
+(* for_each.rs / try_for_each.rs: terminal sinks.  [TInv]: the closure is called with exactly the
+   items offered so far, in order, once; only the last call may have failed, and then the driver
+   sees the failure; for_each never fails. *)
+Theorem C14_try_for_each : forall A (fails : A -> bool) fuel items,
+    match sdrive (stry_for_each fails) fuel items [] [] with
+    | (o, _, l) => sresult (stry_for_each fails) (TInv fails) items o l
+    end.
+Proof. exact (@try_for_each_correct). Qed.
+Print Assumptions C14_try_for_each.
+
+Theorem C14_for_each : forall A fuel (items : list A),
+    match sdrive (sfor_each A) fuel items [] [] with
+    | (o, _, l) => o <> SFailed /\ sresult (sfor_each A) (TInv (fun _ : A => false)) items o l
+    end.
+Proof. exact for_each_correct. Qed.
+Print Assumptions C14_for_each.
+
+(* send_iter.rs: the SendIter future polled until Ready, over a recorder with arbitrary scripts
+   (take dn = [] and an empty log for a fresh sink): strict protocol, never closed; Ready(Ok): every
+   item accepted once and in order and the sink flushed last; Ready(Err): the failure is in the
+   sink's log; nothing is lost across Pending polls. *)
+Theorem C14_send_iter : forall A fuel items dn (s : sds A) tr,
+    sgood (slg s) dn ->
+    match si_drive (srec A) fuel items s tr with
+    | (o, _, (it', s')) =>
+      swf (slg s') = true /\ sclosing (slg s') = false /\ prefix (soffered (slg s')) (dn ++ items) /\
+      (o = SFinished -> sgood (slg s') (dn ++ items) /\ exists r, slg s' = SFlush RDone :: r) /\
+      (o = SFailed -> sfailed (slg s') = true) /\
+      (o = SOutOfFuel -> sfailed (slg s') = false) /\ o <> SPanicked
+    end.
+Proof. exact (@send_iter_correct). Qed.
+Print Assumptions C14_send_iter.
 
 Theorem C14_lazy_init_once_partial : forall A (nx : sink A) fuel items n ok (s0 : SSt nx),
     match sdrive (slazy nx) fuel items (@LUninit A n ok, 0, s0) [] with
